@@ -31,6 +31,9 @@ ArgsCx(w) == CASE w = "w1" -> {[cid |-> K1, froms |-> {1, 2}]}
               [] w = "w3" -> {[cid |-> K1, froms |-> {1, 2}], [cid |-> K1, froms |-> {2}]}
 WireC == BagOf(<<Msg(1, K1, 111), Msg(2, K1, 211), Msg(2, K1, 212), Msg(2, K1, 211)>>)
 
+\* ---- thorough
+WireQ == BagOf(<<Msg(1, K1, 111), Msg(1, K1, 111), Msg(2, K1, 211), Msg(2, K1, 212), Msg(1, K2, 121), Msg(9, K1, 911)>>)
+WireT3 == BagOf(<<Msg(1, K1, 111), Msg(2, K1, 211), Msg(2, K1, 212), Msg(1, K2, 121)>>)
 \* ---- overflow: Bound = 2
 WireO == BagOf(<<Msg(1, K1, 111), Msg(2, K1, 211), Msg(1, K2, 121), Msg(2, K2, 221), Msg(1, K1, 111)>>)
 
